@@ -33,6 +33,13 @@ def asSrc (j : Json) : R Src := do
   | "seq", xs => .ok (.seq xs)
   | "expr", xs => .ok (.expr xs)
   | "file", xs => .ok (.file xs)
+  | "yaml_absent", [] => .ok (srcOfYaml .absent none)
+  | "yaml_num", [x] => .ok (srcOfYaml (.num x) none)
+  | "yaml_seq", xs => .ok (srcOfYaml (.seq xs) none)
+  | "yaml_empty_str", [] => .ok (srcOfYaml .emptyStr none)
+  | "yaml_str", xs => .ok (srcOfYaml (.str xs) none)
+  | "yaml_file", xs => .ok (srcOfYaml .absent (some xs))
+  | "yaml_both", xs => .ok (srcOfYaml (.seq xs) (some xs))
   | _, _ => .error s!"bad src: {j.compress}"
 
 def asOp (j : Json) : R Op :=
@@ -104,6 +111,18 @@ def handle (j : Json) : R Json := do
     .ok (obj [("readout", enc (checkReadout start ts)), ("props", enc (checkProps start ts)),
               ("orig", enc (checkOrig start ts)), ("spec", Json.bool (validSpecB start ts)),
               ("steps", ofList ofX (steps start ts))])
+  | "sweep" =>
+    -- Observation scanning `observation.readout.times`: one run per value, same start time / mode
+    let start ← asX (← fld j "start")
+    let nd ← asBool (← fld j "nd")
+    let base ← asList asX (← fld j "times")
+    let vals ← asList asX (← fld j "values")
+    let prior ← asDet (← fld j "prior")
+    let plan ← asList (asList asWrite) (← fld j "plan")
+    let enc := fun (x : Except Err (List (Obs X))) => match x with
+      | .error e => obj [("error", ofErr e)]
+      | .ok obs => obj [("obs", ofList ofObs obs)]
+    .ok (obj [("runs", ofList enc (sweepTimes ⟨base, start, nd⟩ vals prior (planEffect plan)))])
   | "floatclock" =>
     -- the generic `steps` / `start + t` at Lean's binary64 `Float`: compared bit for bit with numpy
     let start ← asFloatBits (← fld j "start")
